@@ -14,6 +14,15 @@ RULE = ('TLC-enumerated universe DAGs (sharing, repeated operands, disconnected 
 ASSUMPTIONS = ['events are recorded by hook closures in call order', 'cyclic netlists are only used for check_circuit_has_no_cycles']
 
 
+def design(tier, seed):
+    from .. import tlc
+
+    r = tlc.run_model('Traversal', 'Traversal.cfg', workers=16, tag='C20-trav', xmx='6g')
+    tlc.cleanup(r['workdir'])
+    return {'states': r['distinct'], 'transitions': r['generated'],
+            'runs': [f'Traversal.tla (code-shaped DFS/BFS work list and Kahn top_sort refine the abstract traversal specification on ALL DAGs with 4 nodes, all start sequences <= 2, both directions): {r["distinct"]} states, {r["wall_s"]:.1f}s']}
+
+
 def sources(tier, seed, ctx):
     rng = random.Random(seed + 20)
     nets, st = gen.universe(2, 2, gen.T6, 2, tag='C20-U')
